@@ -330,13 +330,21 @@ class ExceptionTrace(object):
             True,
         )
 
-        code_lines = Highlighter(supports_utf8=io.supports_utf8()).code_snippet(
-            frame.file_content, frame.lineno, 4, 4
-        )
+        code_lines = self._code_snippet(io, frame, 4, 4)
 
         with io.increment_indent(2):
             for code_line in code_lines:
                 self._render_line(io, code_line)
+
+    def _code_snippet(self, io, frame, lines_before, lines_after):
+        try:
+            return Highlighter(supports_utf8=io.supports_utf8()).code_snippet(
+                frame.file_content, frame.lineno, lines_before, lines_after
+            )
+        except Exception:
+            # The source cannot be read or tokenized (another encoding, a file
+            # edited since it was loaded): the report goes on without it
+            return []
 
     def _render_solution(self, io, inspector):
         if self._solution_provider_repository is None:
@@ -430,9 +438,7 @@ class ExceptionTrace(object):
 
                     if io.is_debug():
                         if (frame, 2, 2) not in self._FRAME_SNIPPET_CACHE:
-                            code_lines = Highlighter(
-                                supports_utf8=io.supports_utf8()
-                            ).code_snippet(frame.file_content, frame.lineno,)
+                            code_lines = self._code_snippet(io, frame, 2, 2)
 
                             self._FRAME_SNIPPET_CACHE[(frame, 2, 2)] = code_lines
 
@@ -450,7 +456,7 @@ class ExceptionTrace(object):
                             code_line = highlighter.highlighted_lines(
                                 frame.line.strip()
                             )[0]
-                        except tokenize.TokenError:
+                        except Exception:
                             # Not a complete statement: the line is shown as it is
                             code_line = highlighter.plain_line(frame.line.strip())
 
